@@ -1,6 +1,7 @@
-(* A computed witness that the unrestricted first half of C05_full fails on the faithful model: a second
-   net for the bit that is the current lower index of its bus is PREPENDED (open finding C05-K11;
-   bundled float_demo.edf), so the cable the reader builds is not the cable the nets denote. *)
+(* A computed witness that the unrestricted first half of C05_full fails on the faithful model: a scalar
+   net x followed by the bit net x[0] of a bus named x (open finding C05-K13): the reader keeps TWO scalar
+   cables "x" and "x[0]", the nets denote ONE group x. Also the former witness (finding C05-K11, repaired:
+   bits x[0], x[1], then x[0] again; bundled float_demo.edf) as a positive regression example. *)
 From Coq Require Import String.
 From Coq Require Import List NArith ZArith Bool Arith Lia.
 From SV Require Import Base.Base Fmt.EdifLex Fmt.EdifName Fmt.EdifCable Fmt.EdifBus Fmt.EdifNets Fmt.EdifNetsSpec
@@ -26,17 +27,16 @@ Proof.
   rewrite Hv in Hview. destruct Hview as (_ & _ & _ & nets & Hn & Hconn). exists nets. rewrite HL. auto.
 Qed.
 
-(* ---- the witness: bits x[0], x[1], then x[0] again ---- *)
+(* ---- the witness: scalar net x, then bit x[0] ---- *)
 Definition A (s : string) : sexp := Atom (s2l s).
 Definition w_net (ident name port : string) : list sexp :=
   [SList [A "rename"; A ident; Str (s2l name)]; SList [A "joined"; SList [A "portRef"; A port]]].
-Definition w_n1 := w_net "x_0_" "x[0]" "a".
-Definition w_n2 := w_net "x_1_" "x[1]" "b".
-Definition w_n3 := w_net "x_0_" "x[0]" "c".
+Definition w_n1 := w_net "x" "x" "a".
+Definition w_n2 := w_net "x_0_" "x[0]" "b".
 Definition w_vargs : list sexp :=
   [A "v"; SList [A "viewType"; A "NETLIST"];
    SList [A "interface"; SList [A "port"; A "a"]; SList [A "port"; A "b"]; SList [A "port"; A "c"]];
-   SList [A "contents"; SList (A "net" :: w_n1); SList (A "net" :: w_n2); SList (A "net" :: w_n3)]].
+   SList [A "contents"; SList (A "net" :: w_n1); SList (A "net" :: w_n2)]].
 Definition w_crest : list sexp := [SList (A "view" :: w_vargs)].
 Definition w_cargs : list sexp := A "t" :: SList [A "cellType"; A "GENERIC"] :: w_crest.
 Definition w_lrest : list sexp :=
@@ -46,19 +46,19 @@ Definition w_items : list sexp := [SList (A "library" :: w_largs)].
 Definition w_ver : sexp := SList [A "edifVersion"; A "2"; A "0"; A "0"].
 Definition w_lvl : sexp := SList [A "edifLevel"; A "0"].
 Definition w_km : sexp := SList [A "keywordMap"; SList [A "keywordLevel"; A "0"]].
-Definition dup_doc : sexp := SList (A "edif" :: A "n" :: w_ver :: w_lvl :: w_km :: w_items).
+Definition k13_doc : sexp := SList (A "edif" :: A "n" :: w_ver :: w_lvl :: w_km :: w_items).
 
-Definition dup_res : nvfile := match elab_file dup_doc with Ok n => n | Err _ => mkfile [] [] [] None end.
-Definition dup_L : nvlib := hd (mklib [] [] []) (nf_libs dup_res).
-Definition dup_C : nvcell := hd (mkcell [] [] None [] [] []) (li_cells dup_L).
+Definition k13_res : nvfile := match elab_file k13_doc with Ok n => n | Err _ => mkfile [] [] [] None end.
+Definition k13_L : nvlib := hd (mklib [] [] []) (nf_libs k13_res).
+Definition k13_C : nvcell := hd (mkcell [] [] None [] [] []) (li_cells k13_L).
 
-Lemma dup_accepted : elab_file dup_doc = Ok dup_res.
+Lemma k13_accepted : elab_file k13_doc = Ok k13_res.
 Proof. vm_compute. reflexivity. Qed.
 
 (* the same document as text *)
-Example dup_doc_text :
-  read_first (tokenize (s2l "(edif n (edifVersion 2 0 0) (edifLevel 0) (keywordMap (keywordLevel 0)) (library w (edifLevel 0) (technology (numberDefinition)) (cell t (cellType GENERIC) (view v (viewType NETLIST) (interface (port a) (port b) (port c)) (contents (net (rename x_0_ ""x[0]"") (joined (portRef a))) (net (rename x_1_ ""x[1]"") (joined (portRef b))) (net (rename x_0_ ""x[0]"") (joined (portRef c))))))))"))
-  = Some (dup_doc, O, []).
+Example k13_doc_text :
+  read_first (tokenize (s2l "(edif n (edifVersion 2 0 0) (edifLevel 0) (keywordMap (keywordLevel 0)) (library w (edifLevel 0) (technology (numberDefinition)) (cell t (cellType GENERIC) (view v (viewType NETLIST) (interface (port a) (port b) (port c)) (contents (net (rename x ""x"") (joined (portRef a))) (net (rename x_0_ ""x[0]"") (joined (portRef b))))))))"))
+  = Some (k13_doc, O, []).
 Proof. vm_compute. reflexivity. Qed.
 
 Lemma w_net_names F ports insts ident name port nt : unescape_value (s2l name) = Ok (s2l name) ->
@@ -69,23 +69,37 @@ Proof.
   inversion D as [|k a s v Hk U']; subst. rewrite U in U'. inversion U'; subst. rewrite N. cbn [display]. auto.
 Qed.
 
-Lemma dup_not_denoted : ~ denote_file dup_doc dup_res.
+Lemma k13_not_denoted : ~ denote_file k13_doc k13_res.
 Proof.
   intro H.
-  destruct (denote_one_cell dup_doc dup_res (A "edif") (A "n") w_ver w_lvl w_km w_items w_largs (A "w") w_lrest w_cargs (A "t")
-              (SList [A "cellType"; A "GENERIC"]) w_crest w_vargs dup_L dup_C eq_refl) as (nets & Hn & Hconn); try exact H; try (vm_compute; reflexivity).
-  assert (Hs : sel "net" (contents_items w_vargs) = [w_n1; w_n2; w_n3]) by (vm_compute; reflexivity).
+  destruct (denote_one_cell k13_doc k13_res (A "edif") (A "n") w_ver w_lvl w_km w_items w_largs (A "w") w_lrest w_cargs (A "t")
+              (SList [A "cellType"; A "GENERIC"]) w_crest w_vargs k13_L k13_C eq_refl) as (nets & Hn & Hconn); try exact H; try (vm_compute; reflexivity).
+  assert (Hs : sel "net" (contents_items w_vargs) = [w_n1; w_n2]) by (vm_compute; reflexivity).
   rewrite Hs in Hn.
   inversion Hn as [|? n1 ? ? H1 Hn1]; subst. inversion Hn1 as [|? n2 ? ? H2 Hn2]; subst.
-  inversion Hn2 as [|? n3 ? ? H3 Hn3]; subst. inversion Hn3; subst. clear Hn Hn1 Hn2 Hn3 Hs.
+  inversion Hn2; subst. clear Hn Hn1 Hn2 Hs.
   apply w_net_names in H1 as [I1 N1]; [|vm_compute; reflexivity]. apply w_net_names in H2 as [I2 N2]; [|vm_compute; reflexivity].
-  apply w_net_names in H3 as [I3 N3]; [|vm_compute; reflexivity].
-  destruct n1 as [[i1 m1] p1], n2 as [[i2 m2] p2], n3 as [[i3 m3] p3].
+  destruct n1 as [[i1 m1] p1], n2 as [[i2 m2] p2].
   unfold n_ident, n_name in *. cbn [fst snd] in *. subst.
-  destruct Hconn as [_ He].
-  assert (Hin : exists e0, In e0 (ce_cabs dup_C)) by (vm_compute; eexists; left; reflexivity).
-  destruct Hin as (e0 & Hin). specialize (He e0 Hin).
-  vm_compute in Hin. destruct Hin as [<-|[]].
-  vm_compute in He. destruct He as (_ & _ & _ & Hhi & _).
-  destruct Hhi as [X|[X|[X|[]]]]; discriminate.
+  destruct Hconn as [Hnames _].
+  vm_compute in Hnames. discriminate.
 Qed.
+
+(* ---- the former witness (K11, repaired): bits x[0], x[1], then x[0] again. The document is supported,
+   accepted, and the second net of bit 0 joins wire 0: ONE cable x of width 2, lower index 0, wires
+   [a; c] and [b] ---- *)
+Definition dup_doc : sexp :=
+  match read_first (tokenize (s2l "(edif n (edifVersion 2 0 0) (edifLevel 0) (keywordMap (keywordLevel 0)) (library w (edifLevel 0) (technology (numberDefinition)) (cell t (cellType GENERIC) (view v (viewType NETLIST) (interface (port a) (port b) (port c)) (contents (net (rename x_0_ ""x[0]"") (joined (portRef a))) (net (rename x_1_ ""x[1]"") (joined (portRef b))) (net (rename x_0_ ""x[0]"") (joined (portRef c))))))))")) with
+  | Some (d, _, _) => d
+  | None => SList []
+  end.
+
+Example dup_doc_read_as_one_bus :
+  EdifFileDenote.supported dup_doc = true /\
+  match elab_file dup_doc with
+  | Ok n => map (fun L => map (fun C => map (fun e => (e_name e, c_lower (e_cab e), c_array (e_cab e),
+                                                          map (fun w => List.length w) (c_wires (e_cab e)))) (ce_cabs C)) (li_cells L)) (nf_libs n)
+            = [[[(s2l "x", 0%N, true, [2%nat; 1%nat])]]]
+  | Err _ => False
+  end.
+Proof. vm_compute. split; reflexivity. Qed.
